@@ -178,9 +178,12 @@ impl Worker {
         self.flags.set(WorkerFlags::RESERVED, value);
     }
 
+    /// A free worker may be taken by a multi-node task (which replaces the whole single-node
+    /// assignment) or stopped because of idleness. A worker that still holds pre-sent
+    /// (prefilled) tasks in its backlog is not free: it may start them at any time on its own.
     pub fn is_free(&self) -> bool {
         (match &self.assignment {
-            WorkerAssignment::Sn(a) => a.assigned_tasks.is_empty(),
+            WorkerAssignment::Sn(a) => a.assigned_tasks.is_empty() && a.prefilled_tasks.is_empty(),
             WorkerAssignment::Mn(_a) => false,
         }) && !self.is_stopping()
     }
